@@ -1,4 +1,5 @@
 import TflModel.Lemmas.Regularizers
+import TflModel.Lemmas.RegUnits
 /-!
 # C13 — regularizers compute the documented Laplacian / torsion / Hessian / wrinkle penalties
 
@@ -7,6 +8,17 @@ import TflModel.Lemmas.Regularizers
 `lapSpec`, `torSpec`, `pwlSpec` are the documented sums.  Units: the code appends the units axis to the
 lattice shape with amount `0.0`; `extSizes sizes units` is that shape and `getR l rank = 0` for a
 scalar amount or a list with one entry per lattice dimension, so the units axis is never penalised.
+
+Per-unit form (section `units`, proved for every shape, every `units ≥ 1`, scalar and per-dimension
+amounts): the regularizer of the multi-unit kernel is the SUM over units `u` of the single-unit
+regularizer of unit `u`'s slice `unitSlice units u w` (`fun idx => w (idx ++ [u])` when `units > 1`, the
+units axis being the last coordinate; `w` itself when `units = 1`, where the code appends no axis) —
+`laplacian_per_unit`, `torsion_per_unit` (and `laplacian_eq_sum_documented` /
+`torsion_eq_sum_documented`, the exact expression the driver evaluates next to the code-shaped value);
+for the PWL regularizers, whose kernel is a list of columns (one per unit), `pwl_laplacian_per_unit`,
+`pwl_hessian_per_unit`, `pwl_wrinkle_per_unit` (cyclic or not).  The only hypothesis on the amounts is
+that the units axis carries none (`amount_units_axis_zero_*`, `pairW_units_axis_zero_*`: scalars, and
+lists with one entry per lattice dimension).
 -/
 namespace Tfl.C13
 open Tfl Tfl.Reg
@@ -282,19 +294,138 @@ theorem pwl_wrinkle_quadratic (l1 l2 : Rat) (cols : List (List Rat))
   push_cast; ring
 
 
-/-! ## units (statement kept visible; NOT proved here)
+/-! ## units — the per-unit reading "sum over units of the single-unit penalty"
 
 The theorems above treat `units > 1` the way the code does: the units axis is one more axis of the box
 (`extSizes`) whose amount is `0`, so no difference / twist ever crosses units (`laplacian_const` and
-`torsion_separable` use exactly that).  The equivalent per-unit reading "sum over units of the
-single-unit penalty" is the statement below; it is evaluated on every correspondence case by the
-driver (`reg.lat.*` replies carry `Σ_u lapSpec/torSpec` of the unit slices next to the code-shaped
-value) but its Lean proof (splitting `allIdx (sizes ++ [units])` and exchanging the two sums) is missing. -/
+`torsion_separable` use exactly that).  Here the equivalent per-unit reading is PROVED: the box
+`sizes ++ [units]` is (row-major) the box `sizes` times `range units` (`allIdx_snoc`), the axis without
+amount contributes nothing, and the sums over dimensions and over units are exchanged (`lapSpec_snoc`,
+`torSpec_snoc` in `Lemmas/RegUnits.lean`).  `unitSlice units u w` is unit `u` of the kernel — the
+driver's `unitTable`; the `reg.lat.*` replies carry `Σ_u lapSpec/torSpec` of these slices next to the
+code-shaped value, which is `laplacian_eq_sum_documented` / `torsion_eq_sum_documented`. -/
+
+theorem extSizes_one (sizes : List Nat) : extSizes sizes 1 = sizes := by simp [extSizes]
+
+/-- documented Laplacian on the reshaped kernel = sum over units of the documented Laplacian of the slices -/
+theorem lapSpec_per_unit (sizes : List Nat) (units : Nat) (l1 l2 : List Rat) (w : W) (hu : 1 ≤ units)
+    (h1 : getR l1 sizes.length = 0) (h2 : getR l2 sizes.length = 0) :
+    lapSpec (extSizes sizes units) l1 l2 w =
+      rsum ((List.range units).map (fun u => lapSpec sizes l1 l2 (unitSlice units u w))) := by
+  by_cases h : units > 1
+  · simp only [extSizes, unitSlice, h, if_true]
+    exact lapSpec_snoc sizes units l1 l2 w h1 h2
+  · have e : units = 1 := by omega
+    subst e
+    simp [extSizes, unitSlice, rsum]
+
+/-- documented torsion on the reshaped kernel = sum over units of the documented torsion of the slices -/
+theorem torSpec_per_unit (sizes : List Nat) (units : Nat) (p1 p2 : Nat → Nat → Rat) (w : W) (hu : 1 ≤ units)
+    (h1 : ∀ i, p1 i sizes.length = 0) (h2 : ∀ i, p2 i sizes.length = 0) :
+    torSpec (extSizes sizes units) p1 p2 w =
+      rsum ((List.range units).map (fun u => torSpec sizes p1 p2 (unitSlice units u w))) := by
+  by_cases h : units > 1
+  · simp only [extSizes, unitSlice, h, if_true]
+    exact torSpec_snoc sizes units p1 p2 w h1 h2
+  · have e : units = 1 := by omega
+    subst e
+    simp [extSizes, unitSlice, rsum]
+
+/-- the code's multi-unit Laplacian = `Σ_u` documented single-unit Laplacian of unit `u`
+(the expression evaluated by the driver on every correspondence case) -/
+theorem laplacian_eq_sum_documented (sizes : List Nat) (units : Nat) (l1 l2 : Amt) (w : W) (hu : 1 ≤ units)
+    (hA1 : getR (l1.toList sizes.length) sizes.length = 0)
+    (hA2 : getR (l2.toList sizes.length) sizes.length = 0) :
+    laplacian sizes units l1 l2 w =
+      rsum ((List.range units).map (fun u =>
+        lapSpec sizes (l1.toList sizes.length) (l2.toList sizes.length) (unitSlice units u w))) := by
+  rw [laplacian_eq_documented]
+  exact lapSpec_per_unit sizes units _ _ w hu hA1 hA2
+
+/-- **Lattice Laplacian, per-unit form**: for every shape, every `units ≥ 1` and scalar / per-dimension
+amounts that put no amount on the units axis, the regularizer of the multi-unit kernel is the sum over
+units of the single-unit regularizer (`units = 1` call) of each unit's slice. -/
+theorem laplacian_per_unit (sizes : List Nat) (units : Nat) (l1 l2 : Amt) (w : W) (hu : 1 ≤ units)
+    (hA1 : getR (l1.toList sizes.length) sizes.length = 0)
+    (hA2 : getR (l2.toList sizes.length) sizes.length = 0) :
+    laplacian sizes units l1 l2 w =
+      rsum ((List.range units).map (fun u => laplacian sizes 1 l1 l2 (unitSlice units u w))) := by
+  rw [laplacian_eq_sum_documented sizes units l1 l2 w hu hA1 hA2]
+  simp only [laplacian_eq_documented, extSizes_one]
+
+/-- the statement formerly left open (scalar amounts, or lists with one entry per lattice dimension) -/
 def LaplacianIsSumOverUnits : Prop :=
   ∀ (sizes : List Nat) (units : Nat) (l1 l2 : Amt) (w : W), 1 < units →
     (∀ l, l1 = .perDim l → l.length = sizes.length) → (∀ l, l2 = .perDim l → l.length = sizes.length) →
     laplacian sizes units l1 l2 w =
       rsum ((List.range units).map (fun u => laplacian sizes 1 l1 l2 (fun idx => w (idx ++ [u]))))
+
+theorem amount_units_axis_zero (a : Amt) (rank : Nat) (h : ∀ l, a = .perDim l → l.length = rank) :
+    getR (a.toList rank) rank = 0 := by
+  cases a with
+  | scalar x => exact amount_units_axis_zero_scalar x rank
+  | perDim l => exact amount_units_axis_zero_list l rank (h l rfl)
+
+theorem laplacianIsSumOverUnits : LaplacianIsSumOverUnits := by
+  intro sizes units l1 l2 w hu h1 h2
+  have := laplacian_per_unit sizes units l1 l2 w (by omega)
+    (amount_units_axis_zero l1 _ h1) (amount_units_axis_zero l2 _ h2)
+  simpa only [unitSlice, gt_iff_lt, hu, if_true] using this
+
+/-- the code's multi-unit torsion = `Σ_u` documented single-unit torsion of unit `u`
+(the expression evaluated by the driver); for rank-1 lattices both sides are `0`. -/
+theorem torsion_eq_sum_documented (sizes : List Nat) (units : Nat) (l1 l2 : Amt) (w : W) (hu : 1 ≤ units)
+    (h1 : l1.Nonneg) (h2 : l2.Nonneg)
+    (hP1 : ∀ i, l1.pairW sizes.length i sizes.length = 0)
+    (hP2 : ∀ i, l2.pairW sizes.length i sizes.length = 0) :
+    torsion sizes units l1 l2 w =
+      .ok (rsum ((List.range units).map (fun u =>
+        torSpec sizes (l1.pairW sizes.length) (l2.pairW sizes.length) (unitSlice units u w)))) := by
+  by_cases hr : sizes.length = 1
+  · rw [(torsion_rank_one sizes units l1 l2 w hr (fun _ _ => 0) (fun _ _ => 0)).1]
+    congr 1; symm
+    apply rsum_eq_zero
+    intro x hx
+    obtain ⟨u, _, rfl⟩ := List.mem_map.mp hx
+    exact (torsion_rank_one sizes units l1 l2 _ hr _ _).2
+  · rw [torsion_eq_documented sizes units l1 l2 w h1 h2 hr]
+    congr 1
+    exact torSpec_per_unit sizes units _ _ w hu hP1 hP2
+
+/-- **Lattice torsion, per-unit form** (non-negative amounts — `sqrt` of a negative scalar raises): every
+single-unit call on a unit slice succeeds, and the multi-unit call returns the sum of their values. -/
+theorem torsion_per_unit (sizes : List Nat) (units : Nat) (l1 l2 : Amt) (w : W) (hu : 1 ≤ units)
+    (h1 : l1.Nonneg) (h2 : l2.Nonneg)
+    (hP1 : ∀ i, l1.pairW sizes.length i sizes.length = 0)
+    (hP2 : ∀ i, l2.pairW sizes.length i sizes.length = 0) :
+    ∃ r : Nat → Rat, (∀ u, torsion sizes 1 l1 l2 (unitSlice units u w) = .ok (r u)) ∧
+      torsion sizes units l1 l2 w = .ok (rsum ((List.range units).map r)) := by
+  refine ⟨fun u => torSpec sizes (l1.pairW sizes.length) (l2.pairW sizes.length) (unitSlice units u w),
+    fun u => ?_, torsion_eq_sum_documented sizes units l1 l2 w hu h1 h2 hP1 hP2⟩
+  have := torsion_eq_sum_documented sizes 1 l1 l2 (unitSlice units u w) (le_refl 1) h1 h2 hP1 hP2
+  simpa [unitSlice, rsum] using this
+
+theorem pairW_units_axis_zero (a : Amt) (rank : Nat) (h : ∀ l, a = .perDim l → l.length = rank) (i : Nat) :
+    a.pairW rank i rank = 0 := by
+  cases a with
+  | scalar x => exact pairW_units_axis_zero_scalar x rank i
+  | perDim l => exact pairW_units_axis_zero_list l rank i (h l rfl)
+
+/-- **PWL regularizers, per-unit form**: the kernel is given by its columns, one per unit; every PWL
+regularizer (any `terms`, hence Laplacian / Hessian / wrinkle, cyclic or not, any amounts) is the sum over
+units of the regularizer of the one-column kernel. -/
+theorem pwl_per_unit (terms : List Rat → List Rat) (l1 l2 : Rat) (cols : List (List Rat)) :
+    pwlReg terms l1 l2 cols = rsum (cols.map (fun x => pwlReg terms l1 l2 [x])) :=
+  pwlReg_per_unit terms l1 l2 cols
+theorem pwl_laplacian_per_unit (l1 l2 : Rat) (cyc : Bool) (cols : List (List Rat)) :
+    pwlLaplacian l1 l2 cyc cols = rsum (cols.map (fun x => pwlLaplacian l1 l2 cyc [x])) :=
+  pwlReg_per_unit _ l1 l2 cols
+theorem pwl_hessian_per_unit (l1 l2 : Rat) (cyc : Bool) (cols : List (List Rat)) :
+    pwlHessian l1 l2 cyc cols = rsum (cols.map (fun x => pwlHessian l1 l2 cyc [x])) :=
+  pwlReg_per_unit _ l1 l2 cols
+theorem pwl_wrinkle_per_unit (l1 l2 : Rat) (cyc : Bool) (cols : List (List Rat)) :
+    pwlWrinkle l1 l2 cyc cols = rsum (cols.map (fun x => pwlWrinkle l1 l2 cyc [x])) :=
+  pwlReg_per_unit _ l1 l2 cols
 
 /-! ## non-vacuity: concrete instances (docstring-sized 3 x 2 lattice, 4-row PWL kernels) -/
 example : laplacian [3, 2] 1 (.perDim [1, 0]) (.scalar 0)
@@ -310,5 +441,37 @@ example : pwlWrinkle 1 2 false [[0, 1, 2, 5, 7]] = 13 := by decide +kernel
 /-- the hypotheses of `pwl_wrinkle_quadratic` are met by a non-trivial kernel (outputs `j^2`) -/
 example : outs [0, 1, 3, 5, 7] = (List.range 5).map (fun (j : Nat) => (0 : Rat) + 0 * (j : Rat) + 1 * (j : Rat) * (j : Rat)) := by
   decide +kernel
+
+/-! ### non-vacuity of the per-unit theorems: `units = 2`, two different columns -/
+/-- 3-vertex lattice, unit 0 = `(0, 1, 3)`, unit 1 = `(5, 7, 4)`: the two slices differ, have different
+penalties, and the multi-unit value is their sum. -/
+example :
+    let w := Table.get (Table.ofVals [3, 2] [0, 5, 1, 7, 3, 4])
+    (List.map (unitSlice 2 0 w) (allIdx [3]) = [0, 1, 3] ∧ List.map (unitSlice 2 1 w) (allIdx [3]) = [5, 7, 4]) ∧
+    laplacian [3] 1 (.scalar 1) (.perDim [2]) (unitSlice 2 0 w) = 13 ∧
+    laplacian [3] 1 (.scalar 1) (.perDim [2]) (unitSlice 2 1 w) = 31 ∧
+    laplacian [3] 2 (.scalar 1) (.perDim [2]) w = 13 + 31 := by decide +kernel
+/-- the hypotheses of `laplacian_per_unit` are met by that instance -/
+example (w : W) : laplacian [3] 2 (.scalar 1) (.perDim [2]) w =
+    rsum ((List.range 2).map (fun u => laplacian [3] 1 (.scalar 1) (.perDim [2]) (unitSlice 2 u w))) :=
+  laplacian_per_unit [3] 2 _ _ w (by decide) (amount_units_axis_zero_scalar _ _)
+    (amount_units_axis_zero_list _ _ rfl)
+/-- 2 x 2 lattice, two units with different twists (`1` and `-2`) -/
+example :
+    let w := Table.get (Table.ofVals [2, 2, 2] [0, 0, 1, 2, 3, 4, 5, 4])
+    torsion [2, 2] 1 (.scalar 1) (.perDim [1, 3]) (unitSlice 2 0 w) = .ok 4 ∧
+    torsion [2, 2] 1 (.scalar 1) (.perDim [1, 3]) (unitSlice 2 1 w) = .ok 14 ∧
+    torsion [2, 2] 2 (.scalar 1) (.perDim [1, 3]) w = .ok (4 + 14) := by decide +kernel
+/-- the hypotheses of `torsion_per_unit` are met by that instance -/
+example (w : W) : ∃ r : Nat → Rat,
+    (∀ u, torsion [2, 2] 1 (.scalar 1) (.perDim [1, 3]) (unitSlice 2 u w) = .ok (r u)) ∧
+    torsion [2, 2] 2 (.scalar 1) (.perDim [1, 3]) w = .ok (rsum ((List.range 2).map r)) :=
+  torsion_per_unit [2, 2] 2 _ _ w (by decide) (by simp [Amt.Nonneg]) (by simp [Amt.Nonneg])
+    (pairW_units_axis_zero_scalar _ _) (fun i => pairW_units_axis_zero_list _ _ i rfl)
+/-- two different PWL columns, cyclic Hessian: `76 = 52 + 24` -/
+example : pwlHessian 1 1 true [[0, 1, 2]] = 52 ∧ pwlHessian 1 1 true [[5, 1, 1]] = 24 ∧
+    pwlHessian 1 1 true [[0, 1, 2], [5, 1, 1]] = 52 + 24 := by decide +kernel
+example : pwlHessian 1 1 true [[0, 1, 2], [5, 1, 1]] =
+    rsum ([[0, 1, 2], [5, 1, 1]].map (fun x => pwlHessian 1 1 true [x])) := pwl_hessian_per_unit ..
 
 end Tfl.C13
